@@ -346,4 +346,130 @@ theorem reach_linked (n : Node) (h : Reach n) : Linked n := by
   | init => exact Linked.init
   | step n n' _ hs ih => exact step_linked n n' ih hs
 
+-- ------------------------------------------------------------------------------------ the cumulative interchain count
+
+/-- the cumulative interchain count of a list of stored blocks -/
+def totalCount (l : List Blk) : Nat := (l.map countOf).sum
+
+theorem totalCount_append (l : List Blk) (b : Blk) : totalCount (l ++ [b]) = totalCount l + countOf b := by
+  simp [totalCount]
+
+theorem totalCount_take_succ (l : List Blk) (i : Nat) (b : Blk) (h : l[i]? = some b) :
+    totalCount (l.take (i + 1)) = totalCount (l.take i) + countOf b := by
+  have hlt : i < l.length := by
+    by_cases hh : i < l.length
+    · exact hh
+    · rw [List.getElem?_eq_none (by omega)] at h; cases h
+  rw [List.take_add_one, h]
+  simp [totalCount]
+
+/-- the loop of `RollbackBlockChain` keeps the running count equal to the count of the blocks that are left -/
+theorem loop_count (t : Nat) : ∀ (fuel cur cnt : Nat) (n : Node), fuel = cur - t → t ≤ cur → LinkedTo n cur →
+    cnt = totalCount n.tbl.inter →
+    ∃ n' cnt', chainRollbackLoop n t fuel cur cnt = some (n', cnt') ∧ cnt' = totalCount n'.tbl.inter := by
+  intro fuel
+  induction fuel with
+  | zero =>
+    intro cur cnt n hf ht hL hc
+    exact ⟨n, cnt, rfl, hc⟩
+  | succ fuel ih =>
+    intro cur cnt n hf ht hL hc
+    have hnle : ¬ cur ≤ t := by omega
+    obtain ⟨b, im, h1, h2, h3⟩ := loop_step_linked n cur (by omega) hL
+    have hnb : ¬ n.blocks ≤ cur - 1 := by rw [hL.blocks]; omega
+    simp only [chainRollbackLoop, hnle, if_false, h1, h2, hnb]
+    apply ih (cur - 1) _ _ (by omega) (by omega) h3
+    -- what is subtracted is the count of the block that goes
+    obtain ⟨b', c1, c2, c3, _⟩ := hL.byHeight cur (by omega) (Nat.le_refl _)
+    have hc0 : ¬ cur = 0 := by omega
+    have him : im = b'.counter := by
+      simp only [getIMeta, hc0, if_false, c3, Option.map_some, Option.some.injEq] at h2
+      exact h2.symm
+    have hfull : n.tbl.inter = n.tbl.inter.take cur := by rw [List.take_of_length_le (by rw [hL.lenI]; exact Nat.le_refl _)]
+    have hsplit : totalCount n.tbl.inter = totalCount (n.tbl.inter.take (cur - 1)) + countOf b' := by
+      have := totalCount_take_succ n.tbl.inter (cur - 1) b' c3
+      have e : cur - 1 + 1 = cur := by omega
+      rw [e] at this
+      rw [← this, ← hfull]
+    show cnt - (im.map (·.2)).foldl (· + ·) 0 = totalCount (n.tbl.inter.take (cur - 1))
+    rw [hc, hsplit, him]
+    show totalCount (List.take (cur - 1) n.tbl.inter) + countOf b' - countOf b' = _
+    omega
+
+/-- the chain meta's cumulative interchain count is the sum over the stored blocks -/
+def CountOk (n : Node) : Prop := n.cmeta.2.2 = totalCount n.tbl.inter
+
+theorem CountOk.init : CountOk ({} : Node) := rfl
+
+theorem applyBlk_count (n : Node) (b : Blk) (h : CountOk n) : CountOk (applyBlk n b) := by
+  unfold CountOk at h ⊢
+  simp only [applyBlk, Tables.append]
+  rw [totalCount_append, ← h]
+  exact Nat.add_comm _ _
+
+theorem chainRollback_count (n n' : Node) (t : Nat) (hL : Linked n) (hC : CountOk n) (ht : t ≤ n.cmeta.1)
+    (hr : chainRollback n t = .ok n') : CountOk n' := by
+  unfold chainRollback at hr
+  have h1 : ¬ n.cmeta.1 < t := by omega
+  simp only [h1, if_false] at hr
+  by_cases he : n.cmeta.1 = t
+  · simp only [he, if_true] at hr
+    injection hr with hr; subst hr; exact hC
+  · simp only [he, if_false] at hr
+    obtain ⟨n1, cnt, e1, e2⟩ := loop_count t (n.cmeta.1 - t) n.cmeta.1 n.cmeta.2.2 n rfl ht hL.to hC
+    obtain ⟨n1', cnt', f1, f2, _⟩ := loop_linked t (n.cmeta.1 - t) n.cmeta.1 n.cmeta.2.2 n rfl ht hL.to
+    rw [e1] at f1
+    injection f1 with f1
+    injection f1 with g1 g2
+    subst g1
+    simp only [e1] at hr
+    by_cases h0 : t = 0
+    · subst h0
+      simp only [if_true] at hr
+      injection hr with hr
+      subst hr
+      have hlen : n1.tbl.inter.length = 0 := f2.lenI
+      have hnil : n1.tbl.inter = [] := List.eq_nil_of_length_eq_zero hlen
+      show (0 : Nat) = totalCount n1.tbl.inter
+      rw [hnil]; rfl
+    · simp only [h0, if_false] at hr
+      split at hr
+      · cases hr
+      · injection hr with hr
+        subst hr
+        exact e2
+
+/-- over every history the stored cumulative interchain count is the sum of the per-block counts of the blocks that are stored -/
+theorem reach_count (n : Node) (h : Reach n) : CountOk n := by
+  induction h with
+  | init => exact CountOk.init
+  | step n n' hreach hs ih =>
+    have hL := reach_linked n hreach
+    cases hs with
+    | persist b txs ctr hf hp =>
+      unfold persist at hp
+      simp only at hp
+      split at hp
+      · cases hp
+      · cases hp
+        exact applyBlk_count n (mkBlk n txs ctr) ih
+    | rollback t hr =>
+      unfold rollback at hr
+      split at hr
+      · cases hr
+      · cases hr
+      · cases hr
+      · rename_i st' _
+        by_cases ht : t ≤ n.cmeta.1
+        · have hL' : Linked { n with st := st' } := ⟨⟨hL.to.blocks, hL.to.lenB, hL.to.lenT, hL.to.lenI, hL.to.byHeight, hL.to.link, hL.to.first,
+            hL.to.distinct, hL.to.txMeta⟩, hL.headZero, hL.head⟩
+          exact chainRollback_count { n with st := st' } n' t hL' ih ht hr
+        · have : chainRollback { n with st := st' } t = .error .higher := by
+            unfold chainRollback
+            have : n.cmeta.1 < t := by omega
+            simp [this]
+          rw [this] at hr
+          cases hr
+
+
 end Bxh.Chain
